@@ -18,7 +18,7 @@ deriving Repr, DecidableEq
 structure Rule where
   re : Re
   act : Action
-deriving Repr
+deriving Repr, DecidableEq
 
 /-- lexer configuration: rule table, keyword dictionaries in registration order, Unicode facts -/
 structure LexCfg where
